@@ -21,7 +21,6 @@ fn uni(kind: u8) -> StreamUniRemoteH3 {
         script: ControlScript { events: [CEv::NotConnected; 3], n: 0, reads: 0 },
         kind,
         recv: ModelRecv { oks: 0, end: 1, reset_code: VarInt::from_u32(0), reads: 0 },
-        wire: None,
     }
 }
 
